@@ -80,6 +80,9 @@ func runSolver(ctx context.Context, sp solverSpec, file string, secs int) Solver
 
 // Solve races the solvers on one obligation.
 func Solve(o *Obligation, workDir string, secs int, all bool) OblResult {
+	if o.Unit.Timeout > secs && !o.Cover {
+		secs = o.Unit.Timeout
+	}
 	if o.Cover && secs > 3 {
 		secs = 3
 	}
